@@ -215,6 +215,12 @@ func checkC13(e *RunEnv) *CheckResult {
 			cs = append(cs, Case{Base: base, BaseName: "S0", BaseSeed: seedS0(), Steps: append(hugeDirSteps(n), Write("huge/file-0003.txt", "edited, not staged\n"), Write("v2/data/y", "the last tracked file in walk order, edited\n"), Write("v2/data/x", "edited as well\n"), Write("v1/data/y", "edited as well\n"),
 				Write("huge/file-0100.txt", "edited, in the middle\n"), Write("huge/file-0149.txt", "edited\n"), Delete("huge/file-0150.txt"), Write("huge/new", "untracked\n"), Write("zz new", "untracked\n"), Run("status")), Probe: true})
 		}
+		// the same bytes under several names, and a file rewritten with the bytes of *another* tracked file: the report
+		// compares each path with its own staged blob (every other generated content is derived from its path)
+		cs = append(cs, Case{Base: base, BaseName: "S0", BaseSeed: seedS0(), Probe: true, Steps: []Step{
+			Write("p1", "same bytes\n"), Write("p2", "same bytes\n"), Write("d/p3", "same bytes\n"), Write("q", v1("q")), Run("add", "p1", "p2", "d", "q"), Run("commit", "-m", "c1"), Run("status"),
+			Write("p1", "edit 1\n"), Run("status"), Write("p1", "same bytes\n"), Write("p2", v1("q")), Run("status"), Write("q", "same bytes\n"), Run("status"),
+			Delete("d/p3"), Write("u", "same bytes\n"), Write("d/u2", v1("q")), Run("status"), Run("add", "p2"), Run("status"), Run("rm", "p1"), Write("p1", "same bytes\n"), Run("status")}})
 		sweep = x.RunCases(cs)
 	}, func(x *Explorer, cov map[string]interface{}) {
 		cov["name_sweep_cases"] = sweep
